@@ -186,8 +186,13 @@ func extractSnippets(text string) (snippets []*snippet, err error) {
 
 	// add last
 	if start >= 0 {
+		last := text[start:]
+		if inParenthesis {
+			// closing parenthesis is missing: only drop the opening one
+			last = last[1:]
+		}
 		snippets = append(snippets, &snippet{
-			text:           prepToken(text[start:]),
+			text:           prepToken(last),
 			globalPosition: start + 1,
 		})
 	}
@@ -334,9 +339,10 @@ func parseCondition(firstSnippet *snippet, getSnippet func() (*snippet, error)) 
 
 var escapeReplacer = regexp.MustCompile(`(?s)\\(.)`)
 
-// prepToken removes surrounding parenthesis and escape characters.
+// prepToken removes escape characters. Surrounding parenthesis are already
+// removed by extractSnippets; a '"' left in the token is an escaped one.
 func prepToken(text string) string {
-	return escapeReplacer.ReplaceAllString(strings.Trim(text, "\""), "$1")
+	return escapeReplacer.ReplaceAllString(text, "$1")
 }
 
 // escapeString correctly escapes a snippet for printing.
